@@ -2,6 +2,7 @@
 EXTENDS XMask, Json
 KGrid == {"DA", "DS2"}
 KDA == {"DA"}
+KStack == {"DA2S", "DAMI"}
 KCross == {"CROSS"}
 Emit == phase = "done" => PrintT(<<"@@", ToJson([kind |-> kind, nan |-> mask, rx |-> rx, ry |-> ry, pred |-> pred])>>)
 =============================================================================
